@@ -18,6 +18,8 @@ set_option linter.unusedSectionVars false
 namespace BHS.Chain
 variable {H : Type} [DecidableEq H]
 
+deriving instance DecidableEq for Outcome
+
 /-! ### sameButState / rowsPreserved are preorders -/
 
 theorem sameButState_refl (r : Row H) : sameButState r r :=
@@ -154,18 +156,23 @@ theorem storedFields_mkRow (cfg : Cfg H) (s : Store H) (x : Src H) (st : St) :
 theorem add_shape (cfg : Cfg H) (s : Store H) (x : Src H) :
     ((add cfg s x).1 = s ∧ events (add cfg s x).2 = [] ∧ ∀ r, (add cfg s x).2 ≠ .stored r) ∨
     (∃ r s', (add cfg s x).2 = .stored r ∧ (add cfg s x).1 = s' ++ [r] ∧ s'.length = s.length ∧
-      storedFields cfg s x r ∧ ¬ (byHash s (cfg.hashOf x)).isSome = true ∧ cfg.hashOf x ∉ cfg.forbidden) := by
+      storedFields cfg s x r ∧ ¬ (byHash s (cfg.hashOf x)).isSome = true ∧ cfg.hashOf x ∉ cfg.forbidden ∧
+      s'.map (·.hash) = s.map (·.hash)) := by
   rcases add_cases cfg s x with ⟨_, e⟩ | ⟨_, _, e⟩ | ⟨hd, hf, k⟩
   · left; rw [e]; exact ⟨rfl, rfl, fun r h => by cases h⟩
   · left; rw [e]; exact ⟨rfl, rfl, fun r h => by cases h⟩
   · rcases k with ⟨_, e⟩ | ⟨_, _, e⟩ | ⟨_, _, _, _, e⟩ | ⟨_, _, _, _, e⟩
     · right; rw [e]
-      exact ⟨_, s, rfl, rfl, rfl, storedFields_mkRow cfg s x (mkRow cfg s x).st, hd, hf⟩
+      exact ⟨_, s, rfl, rfl, rfl, storedFields_mkRow cfg s x (mkRow cfg s x).st, hd, hf, rfl⟩
     · left; rw [e]; exact ⟨rfl, rfl, fun r h => by cases h⟩
     · right; rw [e]
-      exact ⟨_, s, rfl, rfl, rfl, storedFields_mkRow cfg s x .stale, hd, hf⟩
+      exact ⟨_, s, rfl, rfl, rfl, storedFields_mkRow cfg s x .stale, hd, hf, rfl⟩
     · right; rw [e]
-      exact ⟨_, _, rfl, rfl, List.length_map _, storedFields_mkRow cfg s x .lc, hd, hf⟩
+      refine ⟨_, _, rfl, rfl, List.length_map _, storedFields_mkRow cfg s x .lc, hd, hf, ?_⟩
+      rw [List.map_map]
+      apply List.map_congr_left
+      intro a _
+      exact relab_hash _ _ a
 
 theorem getElem?_append_singleton {α : Type} (l : List α) (a : α) (n : Nat) (h : l.length = n) :
     (l ++ [a])[n]? = some a := by
@@ -175,6 +182,33 @@ theorem getElem?_append_singleton {α : Type} (l : List α) (a : α) (n : Nat) (
 
 theorem drop_append_singleton {α : Type} (l : List α) (a : α) (n : Nat) (h : l.length = n) :
     (l ++ [a]).drop n = [a] := List.drop_left' h
+
+/-- a lookup of the row just appended returns it, when its hash is new -/
+theorem byHash_append_new {s' : Store H} {r : Row H} (h : ∀ a ∈ s', a.hash ≠ r.hash) :
+    byHash (s' ++ [r]) r.hash = some r := by
+  unfold byHash
+  rw [List.find?_append]
+  have e : List.find? (fun a => decide (a.hash = r.hash)) s' = none := by
+    rw [List.find?_eq_none]
+    intro a ha k
+    exact h a ha (of_decide_eq_true k)
+  rw [e]
+  simp
+
+/-- after a successful `Add`, looking the header up by its hash returns exactly the stored row -/
+theorem add_lookup (cfg : Cfg H) (s : Store H) (x : Src H) (r : Row H) (h : (add cfg s x).2 = .stored r) :
+    byHash (add cfg s x).1 (cfg.hashOf x) = some r := by
+  rcases add_shape cfg s x with ⟨_, _, k⟩ | ⟨r', s', e1, e2, _, f, hd, _, hm⟩
+  · exact absurd h (k r)
+  · rw [e1] at h
+    injection h with h
+    subst h
+    rw [e2, ← f.2.1]
+    apply byHash_append_new
+    intro a ha k
+    have : a.hash ∈ s.map (·.hash) := by rw [← hm]; exact List.mem_map.2 ⟨a, ha, rfl⟩
+    obtain ⟨a0, ha0, e⟩ := List.mem_map.1 this
+    exact byHash_not_isSome hd a0 ha0 (by rw [e, k, f.2.1])
 
 /-- the rows one submission appends are exactly its events -/
 theorem add_drop (cfg : Cfg H) (s : Store H) (x : Src H) :
